@@ -27,7 +27,7 @@ except Exception as e:
 EOF
 )
 DEMO_NAME=$(echo "$DEMO_CMD" | grep -o -- "--test [A-Za-z0-9_]*" | head -1 | awk '{print $2}')
-APPEND_TO=$(echo "$DEMO_CMD" | grep -o ">> *src/[A-Za-z0-9_/.]*\.rs" | head -1 | sed 's/>> *//')
+APPEND_TO=$(echo "$DEMO_CMD" | grep -o ">> *[^ ]*src/[A-Za-z0-9_/.]*\.rs" | head -1 | sed 's/>> *//; s|^.*/src/|src/|')
 LIB_FILTER=$(echo "$DEMO_CMD" | grep -o -- "--lib [A-Za-z0-9_:]*" | head -1 | awk '{print $2}')
 place_demo(){
   if [ -n "$DEMO_NAME" ]; then cp "$SRC/demo.rs" "tests/$DEMO_NAME.rs"; else cat "$SRC/demo.rs" >> "$APPEND_TO"; fi
